@@ -855,6 +855,12 @@ bool OPNMIDIplay::realTime_SysEx(const uint8_t *msg, size_t size)
     if(size < 4 || msg[0] != 0xF0 || msg[size - 1] != 0xF7)
         return false;
 
+    for(size_t i = 1; i + 1 < size; ++i)
+    {
+        if((msg[i] & 0x80) != 0)
+            return false; // Malformed: everything between F0 and F7 must be 7-bit data
+    }
+
     unsigned manufacturer = msg[1];
     unsigned dev = msg[2];
     msg += 3;
@@ -892,12 +898,16 @@ bool OPNMIDIplay::doUniversalSysEx(unsigned dev, bool realtime, const uint8_t *d
     switch(((unsigned)realtime << 16) | address)
     {
         case (0 << 16) | 0x0901: // GM System On
+            if(size != 0)
+                break;
             if(hooks.onDebugMessage)
                 hooks.onDebugMessage(hooks.onDebugMessage_userData, "SysEx: GM System On");
             m_synthMode = Mode_GM;
             realTime_ResetState();
             return true;
         case (0 << 16) | 0x0902: // GM System Off
+            if(size != 0)
+                break;
             if(hooks.onDebugMessage)
                 hooks.onDebugMessage(hooks.onDebugMessage_userData, "SysEx: GM System Off");
             m_synthMode = Mode_XG;//TODO: TEMPORARY, make something RIGHT
